@@ -177,6 +177,21 @@ func (m *Model) walk(fn *ssa.Function, bp []*ssa.BasicBlock, loops []*cfgutil.Lo
 							m.problem("%s writes the value stack directly", load.FuncName(fn))
 						}
 					case *ssa.IndexAddr:
+						if c, isC := y.Index.(*ssa.Const); isC && c.Value != nil && c.Int64() == 0 && m.loadOfField(y.X, m.frameField) && !inLoop(b) {
+							// a read of the bottom of the current frame written out in place (the peek
+							// primitive expanded into its caller): the same obligation as the primitive
+							isRead := true
+							for _, ref := range *y.Referrers() {
+								if st, ok := ref.(*ssa.Store); ok && st.Addr == ssa.Value(y) {
+									isRead = false
+								}
+							}
+							if isRead {
+								ts := assertsOn(y)
+								appendOp(Op{Kind: OpPeekBottom, SlotRef: -1, Pos: y.Pos(), Types: ts, TypeStr: typeStrs(ts)})
+								continue
+							}
+						}
 						if m.loadOfField(y.X, m.frameField) || m.loadOfField(y.X, m.savedField) {
 							m.problem("%s indexes the value stack directly", load.FuncName(fn))
 						}
